@@ -127,6 +127,7 @@ func execRT(sc RTScript, rep *kit.Report) error {
 	}
 	set := setOf(sc.Chans)
 	var done []rtDone
+	var retained []retainedEnc
 	ntKey := ""
 	for fi, specs := range sc.Frames {
 		fr, in := buildFrame(specs, identityKey)
@@ -143,6 +144,20 @@ func execRT(sc RTScript, rep *kit.Report) error {
 			b = bytes.Clone(buf.Bytes())
 		} else {
 			b, err = enc.Encode(ctx, fr)
+		}
+		// an encoding handed out earlier (queued for sending, say) must not change when the
+		// codec encodes the next frame
+		for ri, r := range retained {
+			if !bytes.Equal(r.got, r.copy) {
+				return kit.Fail("encoding-changed-after-later-encode", "frame %d: the bytes returned by Encode for frame %d were %x and read %x after a later Encode on the same codec", fi, r.frame, r.copy, r.got)
+			}
+			_ = ri
+		}
+		if err == nil && sc.Via == "" && !sc.Stream {
+			retained = append(retained, retainedEnc{frame: fi, got: b, copy: bytes.Clone(b)})
+			if len(retained) > 1 {
+				rep.Class("earlier-encoding-rechecked")
+			}
 		}
 		if hasWrongType(set, in) {
 			// documented: validation error, nothing encoded
@@ -242,6 +257,11 @@ func execRT(sc RTScript, rep *kit.Report) error {
 		rep.NontrivialKey(ntKey)
 	}
 	return nil
+}
+
+type retainedEnc struct {
+	frame     int
+	got, copy []byte
 }
 
 func httpEncode(ctx context.Context, c *codec.Codec, via string, fr framer.Frame) ([]byte, error) {
